@@ -10,8 +10,9 @@ Definition hexdig (n : Z) : byte := nth (Z.to_nat n) [x30;x31;x32;x33;x34;x35;x3
 Definition flush (s : bytes) (start i : Z) (e : bytes) : outcome bytes :=
   if start <? i then p <- slice s start i ;; Ok (e ++ p) else Ok e.
 
-(* [fx] = false: the code on this tree.  [fx] = true: the repaired loop, which also advances
-   (`i += size`) over a valid encoding of U+FFFD. *)
+(* [fx] = true: the code (`if c != utf8.RuneError || size != 1 { i += size; continue }`: the loop also advances
+   over a valid encoding of U+FFFD).  [fx] = false: the earlier loop, which advanced only when c != RuneError
+   or size == 1. *)
 Fixpoint escape_go (fx : bool) (fuel : nat) (s : bytes) (i start : Z) (e : bytes) : outcome bytes :=
   match fuel with
   | O => OutOfFuel
@@ -43,6 +44,7 @@ Fixpoint escape_go (fx : bool) (fuel : nat) (s : bytes) (i start : Z) (e : bytes
         Ok (e1 ++ [x22])
   end.
 
+(* the earlier loop with explicit fuel *)
 Definition escape_fuel (fuel : nat) (s : bytes) : outcome bytes := escape_go false fuel s 0 0 [x22].
 (* one loop iteration per byte is enough whenever the loop advances *)
 Definition escape_json_g (fx : bool) (s : bytes) : outcome bytes := escape_go fx (S (length s)) s 0 0 [x22].
